@@ -4,7 +4,8 @@ export GOFLAGS=-mod=mod GOPROXY=off GOSUMDB=off GOTOOLCHAIN=local
 ID=$1; shift
 cd /verif
 git -C /repo diff --quiet || { echo "repo dirty"; exit 2; }
-git -C /repo apply /verif/seeded/$ID/patch.diff || { echo "$ID: patch does not apply to /repo"; exit 2; }
+BAK=$(mktemp -d); cp -a /verif/evidence/. $BAK/   # evidence of the mutated tree must not replace the real one
+git -C /repo apply /verif/seeded/$ID/patch.diff || { echo "$ID: patch does not apply to /repo"; rm -rf $BAK; exit 2; }
 for P in "$@"; do
   out=$(./bin/govc check $P 2>&1)
   v=$(echo "$out" | grep -c "^VIOLATION")
@@ -13,3 +14,4 @@ for P in "$@"; do
   echo "SEED $ID check=$P violations=$v engine_errors=$e :: $first"
 done
 git -C /repo checkout -- .
+cp -a $BAK/. /verif/evidence/; rm -rf $BAK
